@@ -92,6 +92,63 @@ pub fn oracle(ctx: &mut Ctx, f: &Flow, run: &FlowRun, spec: &Value) {
     ctx.count(&format!("selected.{}", if total == 0 { "no-hidden-claims" } else if des == 0 { "none" } else if des == total { "all" } else { "some" }));
 }
 
+/// the selected view computed directly, for the two strategies where every position's status is immediate:
+/// `all` = AllLevels (everything hidden except top-level iss / iat / exp), else TopLevel (top-level members hidden, nothing below)
+pub fn expected_view(claims: &Value, sel: &Value, all: bool) -> Value {
+    fn truthy_obj(s: &Value) -> bool {
+        !matches!(s, Value::Bool(false) | Value::Null)
+    }
+    fn sub(v: &Value, s: &Value, hidden_below: bool) -> Value {
+        if !hidden_below {
+            return v.clone();
+        }
+        match (v, s) {
+            (Value::Object(m), Value::Object(so)) => {
+                let mut out = serde_json::Map::new();
+                for (k, x) in m {
+                    if let Some(sk) = so.get(k) {
+                        if truthy_obj(sk) {
+                            out.insert(k.clone(), sub(x, sk, true));
+                        }
+                    }
+                }
+                Value::Object(out)
+            }
+            (Value::Array(a), Value::Array(sa)) => {
+                let mut out = vec![];
+                for (x, sx) in a.iter().zip(sa.iter()) {
+                    let keep = match sx {
+                        Value::Bool(true) => true,
+                        Value::Object(_) => x.is_object(),
+                        Value::Array(_) => x.is_array(),
+                        _ => false,
+                    };
+                    if keep {
+                        out.push(sub(x, sx, true));
+                    }
+                }
+                Value::Array(out)
+            }
+            (Value::Object(_), _) => json!({}),
+            (Value::Array(_), _) => json!([]),
+            (leaf, _) => leaf.clone(),
+        }
+    }
+    let mut out = serde_json::Map::new();
+    if let (Some(m), Some(so)) = (claims.as_object(), sel.as_object()) {
+        for (k, x) in m {
+            if ["iss", "iat", "exp"].contains(&k.as_str()) {
+                out.insert(k.clone(), x.clone());
+            } else if let Some(sk) = so.get(k) {
+                if truthy_obj(sk) {
+                    out.insert(k.clone(), sub(x, sk, all));
+                }
+            }
+        }
+    }
+    Value::Object(out)
+}
+
 pub fn run(ctx: &mut Ctx, replay: Option<&str>) {
     ctx.rule = "random claim trees (Unicode classes, number corners, empty containers) x strategy x type-consistent selection x format x issuer alg x decoys x key binding; \
                 non-trivial = at least one hidden claim and the selection designates some but not all of them, or it is the select-all / select-nothing corner over hidden claims; distinct by the full flow description".into();
@@ -147,6 +204,84 @@ pub fn run(ctx: &mut Ctx, replay: Option<&str>) {
                     produced += 1;
                     ctx.count("stream.small_scope_exhaustive");
                 }
+            }
+        }
+    }
+    // claim sets whose names look like syntax to some layer, under every strategy kind, a few selections each
+    if replay.is_none() {
+        for (ni, (claims, paths)) in notable_claims(now()).into_iter().enumerate() {
+            for (si, st) in [Strategy::All, Strategy::Top, Strategy::Custom(paths.clone()), Strategy::Custom(paths.iter().take(1).cloned().collect())].into_iter().enumerate() {
+                for sel in [select_all(&claims), json!({})] {
+                    flows.push(Flow {
+                        issue: IssueArgs { claims: claims.clone(), strategy: st.clone(), holder: None, decoy: (ni + si) % 2 == 0, fmt: if (ni + si) % 2 == 0 { Fmt::Json } else { Fmt::Compact }, key: crate::keys::KeyId::Hmac1, alg: Some("HS256".to_string()), queue: None },
+                        sel: sel.as_object().cloned().unwrap_or_default(),
+                        kb: None,
+                    });
+                    ctx.count("stream.notable_names");
+                }
+            }
+        }
+    }
+    // deep and wide claim sets (thresholds on depth or on counts are invisible to moderate random trees).  The extracted model
+    // is quadratic in the number of disclosures, so only the smallest of these go through it; the others are judged directly
+    // against a view computed here for the two cases where it is immediate: AllLevels / TopLevel with a selection.
+    let mut direct: Vec<(Flow, Value)> = vec![];
+    if replay.is_none() {
+        let mut r = ctx.rng.fork(7_000_001);
+        let mk = |claims: Value, strategy: Strategy, sel: Value, i: usize| Flow {
+            issue: IssueArgs { claims, strategy, holder: None, decoy: i % 2 == 0, fmt: if i % 3 == 0 { Fmt::Json } else { Fmt::Compact }, key: crate::keys::KeyId::Hmac1, alg: Some("HS256".to_string()), queue: None },
+            sel: sel.as_object().cloned().unwrap_or_default(),
+            kb: None,
+        };
+        let depths: &[usize] = if ctx.tier == Tier::Quick { &[33, 66, 100] } else { &[20, 33, 35, 63, 66, 90, 100, 110] };
+        for (di, d) in depths.iter().enumerate() {
+            let claims = gen_deep_claims(&mut r, *d, now());
+            for (si, st) in [Strategy::All, Strategy::Top].into_iter().enumerate() {
+                for sel in [select_all(&claims), json!({}), json!({"deep": true, "flat": true})] {
+                    let f = mk(claims.clone(), st.clone(), sel.clone(), di + si);
+                    let e = expected_view(&claims, &sel, matches!(st, Strategy::All));
+                    if di == 0 && si == 0 && ctx.tier == Tier::Thorough {
+                        flows.push(f.clone());
+                    }
+                    direct.push((f, e));
+                }
+            }
+            ctx.count("stream.deep_chain");
+        }
+        for (wi, n) in (if ctx.tier == Tier::Quick { vec![140usize, 300] } else { vec![129, 150, 300, 600, 1100] }).into_iter().enumerate() {
+            let claims = gen_wide_claims(&mut r, n, now());
+            let few = if claims.get("wide").is_some() {
+                json!({"wide": {"m0001": true, "m0007": {"v": true}, "m0014": {}, "m0002": false}, "list": [true, false, true]})
+            } else {
+                json!({"m0001": true, "m0007": {"v": true}, "m0014": {}, "m0002": false, "list": [true, false, true]})
+            };
+            for (st, sel) in [(Strategy::All, few.clone()), (Strategy::All, json!({})), (Strategy::All, select_all(&claims)), (Strategy::Top, select_all(&claims)), (Strategy::Top, few.clone())] {
+                let e = expected_view(&claims, &sel, matches!(st, Strategy::All));
+                direct.push((mk(claims.clone(), st, sel, wi), e));
+            }
+            ctx.count("stream.wide");
+        }
+    }
+    for (f, expected) in &direct {
+        ctx.evaluations += 1;
+        ctx.oracle_checks += 1;
+        let run = run_flow(ctx, f);
+        let case = json!({"flow": {"issue": {"strategy": f.issue.strategy.json(), "decoy": f.issue.decoy, "fmt": f.issue.fmt.name(), "claims_depth": depth_of(&f.issue.claims),
+                                            "claims": if serde_json::to_string(&f.issue.claims).map(|t| t.len()).unwrap_or(0) < 4000 { f.issue.claims.clone() } else { json!("(large; regenerated from the seed)") }},
+                                  "sel": f.sel}, "stream": "deep/wide (direct oracle)"});
+        match run.ver.as_ref().map(|x| &x.1.out) {
+            Some(Outcome::Ok(v)) => {
+                if v != expected {
+                    ctx.violation("oracle", "verify", "verified claims differ from the selected view of the original claims (deep / wide claim set)", case, json!(v), expected.clone());
+                } else if has_marker(v, true) {
+                    ctx.violation("oracle", "verify", "a digest list, placeholder or _sd_alg survives in the verified claims (deep / wide claim set)", case, json!(v), expected.clone());
+                } else {
+                    ctx.nontrivial(&json!(["direct", f.issue.strategy.json(), f.sel, depth_of(&f.issue.claims), f.issue.fmt.name()]));
+                }
+            }
+            other => {
+                let stage = if run.issued().is_none() { "issue" } else if run.presentation().is_none() { "present" } else { "verify" };
+                ctx.violation("oracle", stage, "an honest flow over a deep / wide claim set was not accepted", case, json!({"issue": run.issue.out.describe(), "hold": run.hold.as_ref().map(|h| h.calls.iter().map(|c| c.out.describe()).collect::<Vec<_>>()), "verify": other.map(|o| o.describe())}), expected.clone());
             }
         }
     }
